@@ -1,11 +1,16 @@
 #!/bin/bash
-# Re-confirms every recorded seeded defect against the current /repo and the current checks.
+# Re-confirms every recorded seeded defect against the current /repo and the current checks (4 in parallel).
 # usage: tools/reseed.sh [extra properties to run for every seed, comma separated]
 cd /verif
-for d in seeded/*/; do
+./build.sh
+one() {
+  d=$1; extra=$2
   id=$(basename $d)
+  [ -f $d/meta.json ] || exit 0
+  st=$(python3 -c "import json;print(json.load(open('$d/meta.json')).get('status',''))")
+  if [ "$st" = "obsolete-after-fix" ]; then echo "$id obsolete-after-fix (not replayed)"; exit 0; fi
   prop=$(python3 -c "import json;print(json.load(open('$d/meta.json'))['property'])")
-  props=$(python3 -c "import json;m=json.load(open('$d/meta.json'));print(','.join(sorted(set(m.get('checked_properties',[m['property']])+[x for x in '$1'.split(',') if x]))))")
+  props=$(python3 -c "import json;m=json.load(open('$d/meta.json'));print(','.join(sorted(set(m.get('checked_properties',[m['property']])+(m.get('detected_by') or [])+[x for x in '$extra'.split(',') if x]))))")
   python3 tools/seedcheck.py $id $prop $d --props $props 2>/dev/null | python3 -c "
 import sys,json
 try:
@@ -14,4 +19,6 @@ try:
 except Exception as e:
     print('$id', 'ERROR', e)
 "
-done
+}
+export -f one
+ls -d seeded/*/ | xargs -P 4 -I{} bash -c "one {} '$1'"
